@@ -254,6 +254,8 @@ def task(cfg):
             cov.sample({"cfg": _short(cfg), "crash_point": [list(e) for e in hist],
                         "trace": [list(map(str, o)) for o in w.trace][-4:]})
         cov.extra["max_crash_depth"] = max(cov.extra.get("max_crash_depth", 0), len(hist))
+    cov.extra["suggestions_equal_only_up_to_1e-7"] = tw.NEAR[0]
+    tw.NEAR[0] = 0
     cpu = time.process_time() - t0
     cov.extra["max_task_cpu_s"] = round(cpu, 1)
     cov.extra["cpu_s_total"] = round(cpu, 1)
@@ -294,6 +296,8 @@ def run(tier, seed):
         "clone_from_state is called on the searcher of a freshly constructed scheduler (same constructor arguments), "
         "configured like the original; the clone replaces the searcher of a scheduler brought to the crash point by "
         "replay (dill for the real-BO family)",
+        "float hyperparameters of suggestions are compared with relative tolerance 1e-7 (GP get_params/set_params is exact "
+        "only up to an ulp; counted in suggestions_equal_only_up_to_1e-7), everything else exactly",
         "debug_log=True variants of the C03-C05 worlds set searcher._debug_log = DebugLogPrinter() after construction",
     ]
     return res
